@@ -222,6 +222,13 @@ func (c *Client) SendRawTimeout(b []byte, d time.Duration) error {
 	}
 }
 
+// Written returns the number of bytes written to the connection so far.
+func (c *Client) Written() int64 {
+	c.mu.Lock()
+	defer c.mu.Unlock()
+	return c.TxBytes
+}
+
 // SendAsync queues bytes without waiting.
 func (c *Client) SendAsync(b []byte) { c.enqueue(b, nil) }
 
